@@ -13,7 +13,7 @@ From Coq Require Import String.
 From Coq Require Import List NArith Bool Arith.
 From Coq Require Import Init.Byte.
 From FFS Require Import Base.Res Base.Bytes Abi.Types AbiType.Syntax AbiType.Spec AbiType.Model AbiType.Abs
-  AbiType.ProofsDec AbiType.ProofsMain.
+  AbiType.ProofsDec AbiType.ProofsMain AbiType.Run AbiType.ProofsOracle.
 Import ListNotations.
 
 (* 1. Validation never panics (and the model never runs out of fuel): any bytes as type text, any
@@ -80,6 +80,15 @@ Theorem C13_numerals_canonical :
 Proof. exact is_dec_iff. Qed.
 Print Assumptions C13_numerals_canonical.
 
+(* 6. The recogniser that the correspondence check uses as its oracle on the implementation's answers
+      (AbiType/Run.v: [recognise leaf_table], written from the grammar: split at the first '[', dimensions,
+      base looked up in the table of all 5 225 leaf spellings or "tuple" + components) decides the grammar. *)
+Theorem C13_oracle_decides_grammar :
+  forall p t, recognise leaf_table p = Some t <->
+              valid_type t = true /\ spelling t (p_type p) (p_comps p).
+Proof. exact recognise_correct. Qed.
+Print Assumptions C13_oracle_decides_grammar.
+
 (* ---------- non-vacuity ---------- *)
 Definition ex_param : param :=
   Param (T "tuple[2][]") [Param (T "uint") []; Param (T "fixed128x18[3]") [];
@@ -104,6 +113,9 @@ Example C13_nonvacuous_tuple_free :
   exists tc, Validate (Param (T "ufixed[4294967295][]") []) = Ok tc /\ tuple_free tc = true /\
              tc_string tc = Ok (T "ufixed128x18[4294967295][]").
 Proof. eexists. split; [vm_compute; reflexivity|]. split; vm_compute; reflexivity. Qed.
+
+Example C13_nonvacuous_oracle : exists t, recognise leaf_table ex_param = Some t /\ t = ex_ty.
+Proof. eexists. split; [vm_compute; reflexivity|reflexivity]. Qed.
 
 (* the former defects D13a / D13b and the other malformed classes of the quantifier are rejected *)
 Example C13_nonvacuous_reject :
